@@ -1,5 +1,8 @@
 import WS.Lemmas.WireInv
 import WS.Lemmas.Codec
+import WS.Lemmas.WireWF
+import WS.Lemmas.Content
+import WS.Gen.Skeletons
 /-
   C02 — Everything written to the wire is well-formed RFC 6455 / RFC 7692 framing.
   (The frame-record level statement — masks, RSV bits, fragmentation grammar — is
@@ -44,6 +47,60 @@ theorem wire_decodable (s0 : W) (h0 : Fresh s0) (hf : s0.faults = []) (ops : Lis
 theorem masked_iff_client (isServer : Bool) (b0 : Nat) (key : Key) (payload : Bytes) :
     (frameOf isServer b0 key payload).mask.isSome = !isServer := by
   unfold frameOf; cases isServer <;> rfl
+
+/-- C02 (frame-record level): for every admissible program without transport faults the wire decodes
+    to a frame sequence that is well-formed for this role: masked iff client, RSV2/RSV3 clear, RSV1
+    only on the first frame of a data message and only if permessage-deflate was negotiated, control
+    frames unfragmented with ≤ 125 bytes, each data message one text/binary frame followed only by
+    continuations. `_partial`: `EnvAdmissible` demands that the environment's flate answers pass the
+    two checks of flateWriteWrapper.Close (real compress/flate always does; with an inconsistent
+    answer the model — like the code — leaves a message writer open, see the kernel-checked
+    counterexample `WireWF.wire_wellformed_false`); `Admissible` excludes a prepared *data* message
+    sent while a message writer is open (finding F8). -/
+theorem wire_wellformed_partial (s0 : W) (h0 : Fresh s0) (hf : s0.faults = []) (ops : List Op)
+    (ha : WireWF.Admissible s0 ops) (he : WireWF.EnvAdmissible s0 ops) :
+    ∃ fs, Spec.decodeStream (run s0 ops).wire = some fs ∧ Spec.WellFormed ⟨!s0.isServer, s0.nego⟩ fs :=
+  WireWF.wire_wellformed_partial s0 h0 hf ops ha he
+
+/-- with transport faults the whole frames that reached the wire are still well-formed -/
+theorem wire_wellformed_prefix_partial (s0 : W) (h0 : Fresh s0) (ops : List Op)
+    (ha : WireWF.Admissible s0 ops) (he : WireWF.EnvAdmissible s0 ops) :
+    Spec.WellFormed ⟨!s0.isServer, s0.nego⟩ (Spec.decodePrefixAux (run s0 ops).wire.length (run s0 ops).wire) :=
+  WireWF.wire_wellformed_prefix_partial s0 h0 ops ha he
+
+/-- payloads: a data message written through NextWriter in any pieces (Write / WriteString of any
+    sizes, pings/pongs in between) is accepted, and the wire gains exactly one message whose
+    unmasked payload is the concatenation of the pieces, plus the interleaved control frames in
+    order — for every buffer size and either role (uncompressed connections) -/
+theorem message_roundtrip (s : W) (hi : Content.Idle s) (t : Nat) (ht : t = 1 ∨ t = 2) (ps : List Content.Piece)
+    (hps : ∀ p ∈ ps, p.ok) :
+    let s' := run s (Content.messageOps s t ps)
+    Content.Idle s' ∧
+    Content.wireMessages s' = Content.wireMessages s ++ [⟨t, false, (ps.map Content.Piece.bytes).flatten⟩] ∧
+    Content.wireControls s' = Content.wireControls s ++ (ps.map Content.Piece.ctl).flatten :=
+  Content.message_roundtrip s hi t ht ps hps
+
+/-- the same for WriteMessage, any size, any buffer size, either role -/
+theorem writeMessage_roundtrip (s : W) (hi : Content.Idle s) (t : Nat) (ht : t = 1 ∨ t = 2) (data : Bytes) (hd : data.length < 2 ^ 40) :
+    (writeMessage s t data).1 = none ∧ Content.Idle (writeMessage s t data).2 ∧
+    Content.wireMessages (writeMessage s t data).2 = Content.wireMessages s ++ [⟨t, false, data⟩] ∧
+    Content.wireControls (writeMessage s t data).2 = Content.wireControls s :=
+  Content.writeMessage_roundtrip s hi t ht data hd
+
+/-- … and for a control message of at most 125 bytes sent with WriteControl -/
+theorem writeControl_roundtrip (s : W) (hi : Content.Idle s) (t : Nat) (ht : t = 9 ∨ t = 10) (data : Bytes) (hd : data.length ≤ 125) (d : Nat) :
+    (writeControl s t data d).1 = none ∧ Content.Idle (writeControl s t data d).2 ∧
+    Content.wireMessages (writeControl s t data d).2 = Content.wireMessages s ∧
+    Content.wireControls (writeControl s t data d).2 = Content.wireControls s ++ [(t, data)] :=
+  Content.writeControl_roundtrip s hi t ht data hd d
+
+/-- the length thresholds and header offsets of today's flushFrame are the ones the model encodes -/
+theorem length_switch_as_modelled :
+    Gen.lengthSwitch =
+      ["length >= 65536 => c.writeBuf[framePos] = b0; c.writeBuf[framePos+1] = b1 | 127; binary.BigEndian.PutUint64(c.writeBuf[framePos+2:], uint64(length))",
+       "length > 125 => framePos += 6; c.writeBuf[framePos] = b0; c.writeBuf[framePos+1] = b1 | 126; binary.BigEndian.PutUint16(c.writeBuf[framePos+2:], uint16(length))",
+       "default => framePos += 8; c.writeBuf[framePos] = b0; c.writeBuf[framePos+1] = b1 | byte(length)"] := by
+  decide +kernel
 
 /-- non-vacuity: a server fast-path message of 20 bytes (buffer 16: header+16 bytes, then 4 extra bytes) decodes to one binary frame -/
 example : (Spec.decodeStream (writeMessage (newW true 16 false false) 2 (List.replicate 20 7)).2.wire).map (·.length) = some 1 := by
